@@ -41,6 +41,8 @@ ITEMS = [
     ("hr", ["***"]),
     ("code-only", ["```", "x", "```"]),
     ("table", ["| a | b |", "|---|---|"]),
+    ("table-rows", ["| a | b |", "|---|---|", "| c | d |"]),      # (the two-line form above is a paragraph for Marko)
+    ("para-table", ["a", "", "| x |", "|---|", "| y |"]),
 ]
 CTX = [((), None, None), (("bq",), None, None), (("fn",), None, None), (("ul",), None, None), ((), "p", None), ((), "h", "p"), ((), None, "p")]
 MODES = ("preserve", "loose", "tight")
@@ -96,7 +98,7 @@ class Lists(Space):
         self.widths = (88,) if q else (88, 8)
         self.item_ids = list(range(len(ITEMS)))
         self.item_reps = [0, 1, 2, 3, 5, 6]
-        self.floors = {"modes-differ": 500, "loose-checked": 500, "tight-checked": 200}
+        self.floors = {"modes-differ": 500, "loose-checked": 500, "tight-checked": 200, "loose-pairs-checked": 500}
 
     def cases(self):
         for ci in range(len(CTX)):
@@ -180,6 +182,22 @@ class Lists(Space):
             if n > 1 and t:
                 viol.append(("loose-leaves-tight-list", {"input": text, "output": outs["loose"], "list_path": list(p)}))
                 break
+        # (c') loose, pair by pair: between the last line of a top-level item of the generated list and the first line of the next
+        # one there is a blank (prefix-only) line.  Top-level items are located by their marker directly behind the context prefix.
+        layers = CTX[ci][0]
+        first, cont = docspace.indent_of(layers)
+        olines = outs["loose"].rstrip("\n").split("\n")
+        starts = []
+        for li, ln in enumerate(olines):
+            pre = first if li == 0 else cont
+            if ln.startswith(pre) and re.match(r"(?:[-*+]|\d+[.)])(?: |$)", ln[len(pre):]):
+                starts.append(li)
+        if len(starts) == len(items) and not (CTX[ci][1] or CTX[ci][2]):
+            tags.append("loose-pairs-checked")
+            for a_, b_ in zip(starts, starts[1:]):
+                if b_ - 1 <= a_ or not is_blankish(olines[b_ - 1]):
+                    viol.append(("loose-items-not-separated", {"input": text, "output": outs["loose"], "line": olines[b_]}))
+                    break
         # (d) tight: every list whose items each hold a single block is tight
         for p, t, n, s in lists_of(trees["tight"]):
             if n > 1 and s:
